@@ -219,8 +219,9 @@ class LoopInv(object):
     ghost_init(view) -> {name: T},  ghost_step(view) -> {name: T}
     """
     def __init__(self, name, inv, shapes=None, ghost_init=None, ghost_step=None, ghost_sorts=None, min_iters=0,
-                 hints=None):
+                 hints=None, observe=None):
         self.name, self.inv = name, inv
+        self.observe = observe          # callable(view) -> dict recorded as event 'loop_body_end' (preserve leg)
         self.shapes = shapes or {}
         self.ghost_init, self.ghost_step = ghost_init, ghost_step
         self.ghost_sorts = ghost_sorts or {}
@@ -250,6 +251,7 @@ class Interp(object):
         self.summaries = {}          # qualname -> callable(interp, args, kwargs) replacing the body
         self.loop_invs = {}          # (qualname, ordinal) -> LoopInv
         self.call_hooks = []         # callables(qualname, args, kwargs) observing repository calls
+        self.return_hooks = {}       # qualname -> callable(locals, return value): lets a contract see final locals
         self.frames = []             # call stack of qualnames
         self.max_depth = 60
         self.generic_depth = 0
@@ -680,7 +682,7 @@ class Interp(object):
             if isinstance(v, Lane):
                 v.t = ir.var(c.fresh('h_' + nm, v.t.sort).args[0] + '@i', v.t.sort)
         for nm in names:
-            if nm in env.vars:
+            if nm in env.vars and nm not in spec.shapes:
                 if nm in stores and isinstance(env.vars[nm], Lane):
                     continue
                 env.vars[nm] = self._havoc_like('h_' + nm, env.vars[nm])
@@ -713,7 +715,12 @@ class Interp(object):
             except ContinueEx:
                 pass
             except BreakEx:
+                if spec.observe:
+                    c.event('loop_break', spec.observe(view(ghost)), State.where)
+                env.vars['__ghost__%s' % spec.name] = ghost
                 return               # continue after the loop with the state at the break
+            if spec.observe:
+                c.event('loop_body_end', spec.observe(view(ghost)), State.where)
             g2 = dict(ghost)
             if spec.ghost_step:
                 g2.update(spec.ghost_step(view(ghost)))
@@ -1504,11 +1511,15 @@ class Interp(object):
                 return self.ev(node.body, env, f.module, f)
             if _is_generator(node):
                 return GeneratorVal(self, f, env)
+            rv = None
             try:
                 self.exec_block(node.body, env, f.module, f)
             except ReturnEx as r:
-                return r.value
-            return None
+                rv = r.value
+            hook = self.return_hooks.get(q)
+            if hook is not None:
+                hook(env.vars, rv)
+            return rv
         finally:
             self.frames.pop()
 
